@@ -88,9 +88,16 @@ impl SharedKeys {
                 c.cancel();
                 back = Some((key, sid));
             }
-            _ => {
+            2 => {
                 let auto = key.into_auto();
                 drop(auto);
+            }
+            _ => {
+                // A clone stays alive (and goes back into the slot) while the auto key is dropped.
+                let c = key.clone();
+                let auto = key.into_auto();
+                drop(auto);
+                back = Some((c, sid));
             }
         }
         ctx.log(Ev::CancelRet { actor, sid });
